@@ -35,6 +35,7 @@ func runC09(c *Ctx) {
 	c09R8(c)
 	c08R5As(c, c.R.Rule("R9", "K3 (= C08.R5) v1: a processor reply that changes the record position — to anything, including an empty one — is refused: the record is replaced and sent on only on the bytes.Equal(processed position, original position) edge", 2))
 	c09R10(c)
+	c01R4As(c, c.R.Rule("R11", "K3 (= C01.R4) v2: a destination (or DLQ) that answers with fewer acks than records written — empty ack responses — never makes DestinationTask.Do return nil: the pass fails instead of acking unconfirmed records", 4))
 }
 
 // c09R10: only the source task's read may end a pass quietly.
